@@ -76,6 +76,10 @@ func within(n int, lo, hi *big.Int) bool {
 func literalBody(kind string, count int) string {
 	switch {
 	case kind == model.L:
+		if count >= 2 && count%2 == 0 {
+			// the last child is a template item (an ASCII variable): it still counts as one child
+			return strings.Repeat(" <U1 1>", count-2) + " <L <U1 2> <A inner>> <A last>"
+		}
 		return strings.Repeat(" <U1 1>", count)
 	case kind == model.A:
 		if count == 0 {
